@@ -149,7 +149,7 @@ def addAllH : Heap → Addr → List (String × Addr) → Option Heap
     | some h1 => addAllH h1 c rest
 
 /-- Add(overlay, container): the children of `c` themselves are stored -/
-def addH (h : Heap) (s : HOverlay) (l : String) (c : Addr) : Option (Heap × HOverlay) :=
+def ovAddH (h : Heap) (s : HOverlay) (l : String) (c : Addr) : Option (Heap × HOverlay) :=
   match ensureOverlay h s l with
   | (h1, s1, cur) =>
     match h1.get? c with
@@ -214,13 +214,13 @@ def layersF (f : Nat) : Heap → HOverlay → Option (Heap × HOverlay)
 def layersH (h : Heap) (s : HOverlay) : Option (Heap × HOverlay) := layersF h.size h s
 
 /-- Lookup(overlay, path): the stored node itself -/
-def lookupH (h : Heap) (s : HOverlay) (l : String) (comps : List String) : Option Addr :=
+def ovLookupH (h : Heap) (s : HOverlay) (l : String) (comps : List String) : Option Addr :=
   match s.find l with
   | none => none
   | some a => if comps = [] then none else lookupKeys h a comps
 
 /-- LookupAny(path): the first layer in creation order with a hit -/
-def lookupAnyH (h : Heap) (s : HOverlay) (comps : List String) : Option Addr :=
+def ovLookupAnyH (h : Heap) (s : HOverlay) (comps : List String) : Option Addr :=
   s.findSome? fun p => if comps = [] then none else lookupKeys h p.2 comps
 
 /-- Merged(opts) -/
@@ -246,7 +246,7 @@ def OvOp.layer : OvOp → String
 
 def applyOvOp (h : Heap) (s : HOverlay) : OvOp → Option (Heap × HOverlay)
   | .put l comps v => putH h s l comps v
-  | .add l c => addH h s l c
+  | .add l c => ovAddH h s l c
   | .populate l comps data => populateH h s l comps data
 
 def applyOvOps : Heap → HOverlay → List OvOp → Option (Heap × HOverlay)
